@@ -80,6 +80,18 @@ Written(r, p) ==
     IN  CASE r.rep = "vec" -> [r EXCEPT !.buf = mem1] [] r.rep = "ring" -> [r EXCEPT !.buf = mem1]
           [] r.rep = "strided" -> [r EXCEPT !.base = mem1]
 
+(* ---- mutable accessors (Vec1Mut: get_mut, try_as_slice_mut, apply_mut_with) --------- *)
+
+\* the representation after assigning x to logical slot i through get_mut(i)
+SetOne(r, i, x) ==
+    CASE r.rep = "vec"     -> [r EXCEPT !.buf[WriteCell(r, i)] = x]
+      [] r.rep = "ring"    -> [r EXCEPT !.buf[WriteCell(r, i)] = x]
+      [] r.rep = "strided" -> [r EXCEPT !.base[WriteCell(r, i)] = x]
+\* checked mutable access: present exactly inside the sequence
+AGetMutPresent(r, i) == i < ALen(r)
+\* apply_mut_with(other, f): element-wise on equal lengths, an error (and no change) otherwise
+ApplyMutWith(L, other, F(_, _)) == IF Len(L) = Len(other) THEN <<"ok", [i \in 1..Len(L) |-> F(L[i], other[i])]>> ELSE <<"err", L>>
+
 (* ---- enumeration ------------------------------------------------------------------- *)
 
 Rings == {[rep |-> "ring", cap |-> cap, head |-> h, len |-> n,
@@ -125,6 +137,14 @@ WriteMapOK ==
               (\A i \in 0..(n - 1) : WriteCell(c, i) # cell) =>
                  (CASE c.rep = "vec" -> w.buf[cell] = c.buf[cell] [] c.rep = "ring" -> w.buf[cell] = c.buf[cell]
                     [] c.rep = "strided" -> w.base[cell] = c.base[cell])
+
+\* C07 / C19: assigning through the mutable accessor changes that logical slot and no other; the
+\* mutable contiguous view obeys the same rule as the shared one
+SetOneOK ==
+    c.rep \in {"vec", "ring", "strided"} =>
+        LET L == Logical(c)  n == Len(L) IN
+        /\ \A i \in 0..(n - 1) : Logical(SetOne(c, i, 999)) = [L EXCEPT ![i + 1] = 999]
+        /\ \A i \in 0..(n + 1) : AGetMutPresent(c, i) <=> i < n
 
 \* the ring buffer mapping is a bijection onto the live cells
 RingLive == c.rep = "ring" => \A i, j \in 1..c.len : i # j => ((c.head + i - 1) % c.cap) # ((c.head + j - 1) % c.cap)
